@@ -971,6 +971,14 @@ def gen_aranges(ch, tier):
                 put(i, zb, 0)
                 shadow_done = True
                 i = ch.choice(cands())
+                # ... and sometimes a second and a third one beside it (same address or the next ones), in the same or another set: neighbours
+                # in the address-ordered view, all inside the one non-empty range that follows
+                extra = ch.choice([0, 0, 1, 1, 2])
+                while extra and left >= 2 + extra:
+                    zb = min(zb + ch.choice([0, 1, 2]), begin + ln - 1)
+                    put(i, zb, 0)
+                    i = ch.choice(cands())
+                    extra -= 1
         elif not want_shadow and begin > 0 and gap > 0 and left >= 1 and ch.bool(0.04):
             # a zero-length range strictly inside a gap: contains no address, must only show up in .entries
             put(i, begin, 0)
